@@ -12,3 +12,4 @@ Definition k_flow_DPAPINGBlob_pack : pfun :=
     SExpr (PMeth "pack" (PName "content_info") [(PName "writer")]);
     SReturn (PMeth "join" (PBytes []) [(PList [(PMeth "get_data" (PName "writer") []); (PIfExp (PName "blob_in_envelope") (PBytes []) (PAttr (PName "self") "enc_content"))])])
   ] |}.
+Definition k_flow_DPAPINGBlob_pack_defaults : list (string * pexp) := [("blob_in_envelope", (PBool true))].
